@@ -195,7 +195,7 @@ func c13SameAddress(c *Ctx) {
 	if f == nil {
 		return
 	}
-	p1, p2 := ssa.Value(f.Params[1]), ssa.Value(f.Params[2])
+	p1, p2 := paramOf(f, 1), paramOf(f, 2)
 	strEq := func(a Atom) bool {
 		return a.Kind == "eq" && ((strip(a.X) == p1 && strip(a.Y) == p2) || (strip(a.X) == p2 && strip(a.Y) == p1))
 	}
